@@ -1,6 +1,7 @@
 package c02
 
 import (
+	"fmt"
 	"math"
 	"strings"
 	"time"
@@ -9,6 +10,7 @@ import (
 
 	sdk "github.com/cosmos/cosmos-sdk/types"
 	banktypes "github.com/cosmos/cosmos-sdk/x/bank/types"
+	stakingtypes "github.com/cosmos/cosmos-sdk/x/staking/types"
 
 	"github.com/bandprotocol/chain/v3/pkg/tss"
 	bandtesting "github.com/bandprotocol/chain/v3/testing"
@@ -62,6 +64,10 @@ func prepBusy(w *engine.World, ctx sdk.Context, info map[string]any) sdk.Context
 	// votes -> current feeds
 	tssh.Must(w.Tx(ctx, 0, restaketypes.NewMsgStake(bandtesting.Alice.Address, uband(100))), "stake")
 	tssh.Must(w.Tx(ctx, 0, feedstypes.NewMsgVote(bandtesting.Alice.Address.String(), []feedstypes.Signal{{ID: sigA, Power: 60}, {ID: sigB, Power: 40}})), "vote")
+	// validators 0 and 2 end up with exactly equal bonded tokens, and all validators report in the same block with
+	// different prices: full ties (time, power) in the price aggregation, so its result depends on the order in
+	// which validators are visited
+	tssh.Must(w.Tx(ctx, 0, stakingtypes.NewMsgDelegate(bandtesting.FeePayer.Address.String(), bandtesting.Validators[2].ValAddress.String(), sdk.NewInt64Coin("uband", 1))), "delegate")
 	g, ctx := tssh.SetupCurrentGroup(w, ctx, 3, 2, 1)
 	for i := range g.Accounts {
 		tssh.Must(w.Tx(ctx, 0, tssh.SubmitDEsMsg(g.Accounts[i].Address.String(), 0, 4)), "DEs")
@@ -212,6 +218,11 @@ func Alphabet(info map[string]any) []*twin.TxGen {
 	add("bandtss.update-params.not-authority", A, bandtsstypes.NewMsgUpdateParams(A.Address.String(), bandtsstypes.DefaultParams()))
 	// ---- feeds ----
 	add("feeds.vote.ok", A, restaketypes.NewMsgStake(A.Address, uband(50)), feedstypes.NewMsgVote(A.Address.String(), []feedstypes.Signal{{ID: sigB, Power: 30}, {ID: "CS:CCC-USD", Power: 20}}))
+	for _, gas := range []uint64{70_000, 85_000, 100_000, 115_000, 130_000, 145_000, 160_000} {
+		g := gas
+		ms := []sdk.Msg{feedstypes.NewMsgVote(A.Address.String(), []feedstypes.Signal{{ID: sigB, Power: 30}, {ID: "CS:CCC-USD", Power: 20}, {ID: "CS:DDD-USD", Power: 10}, {ID: "CS:EEE-USD", Power: 5}})}
+		out = append(out, &twin.TxGen{Name: fmt.Sprintf("feeds.vote.gas-%d", g), Signer: A, Gas: g, Msgs: func(map[string]any) []sdk.Msg { return ms }})
+	}
 	add("feeds.vote.empty", A, feedstypes.NewMsgVote(A.Address.String(), nil))
 	add("feeds.vote.over-power", B, feedstypes.NewMsgVote(B.Address.String(), []feedstypes.Signal{{ID: sigA, Power: 1 << 40}}))
 	add("feeds.vote.wrap", B, feedstypes.NewMsgVote(B.Address.String(), []feedstypes.Signal{{ID: sigA, Power: math.MaxInt64}, {ID: sigB, Power: math.MaxInt64}, {ID: "C", Power: 2}}))
